@@ -19,6 +19,7 @@ FIRST = {
     "C07-b1": "caught by C08/C09/C16/C23 only", "C07-b2": "NOT ESTABLISHED under C06/C11/C14/.. only", "C07-b3": "caught by C08/C09/C12 only",
     "C17-b1": "caught by C01/C12/C20 only", "C22-b1": "missed (window opened at the LRU unlink, not at the first mutation)", "C22-b2": "missed", "C22-b3": "caught by C12/C13/C18/C20 only",
     "C24-a2": "caught (NOT ESTABLISHED: drain gone)",
+    "C12-b2": "NOT ESTABLISHED under C15 only", "C01-b1": "caught (NOT ESTABLISHED form)", "C01-b2": "missed", "C02-b2": "caught by C07/C08/C09 only",
     "C26-a1": "missed", "C26-a2": "caught (NOT ESTABLISHED: whole-vector store gone)", "C26-a3": "missed",
 }
 for d in sorted(os.listdir(os.path.join(ROOT, "seeded"))):
